@@ -479,6 +479,33 @@ def run_corner(spec):
     sim = setup(spec)
     for i, p in enumerate(spec["pts"]):
         sim.add(m=1e-3, x=p[0], y=p[1], z=p[2], vx=p[3] if len(p) > 3 else 0., vy=0., vz=0., hash=i + 1)
+    if "ops" in spec:
+        # scripted history: ["add", m, x, y, z] | ["remove", index] | ["step"]; the tree is checked after every step
+        try:
+            n_expected = 0
+            for op in spec["ops"]:
+                if op[0] == "add":
+                    sim.add(m=op[1], x=op[2], y=op[3], z=op[4]); n_expected += 1
+                elif op[0] == "remove":
+                    sim.remove(index=op[1], keep_sorted=False); n_expected -= 1
+                else:
+                    res["stats"]["steps"] += 1
+                    sim.step()
+                    clib.reb_simulation_update_tree(ctypes.byref(sim))
+                    forest = L.dump_tree(sim)
+                    part = [(p.x, p.y, p.z, p.m) for p in (sim.particles[i] for i in range(sim.N))]
+                    res["stats"]["tree_checks"] += 1
+                    errs = L.wfb_py(box, part, sim.N, forest) if forest is not None else (["tree missing"] if sim.N else [])
+                    lv = []
+                    for c in (forest or []):
+                        L.leaves_of(c, lv)
+                    if errs or sim.N != n_expected:
+                        raise Fail(spec["key"], "%s: N=%d (expected %d), leaves %s: %s" % (spec["what"], sim.N, n_expected, lv, (errs or ["count"])[0]), {"errors": errs[:4]})
+        except Fail as f:
+            res["fail"] = {"key": f.key, "what": f.what, "detail": f.detail, "step": res["stats"]["steps"]}
+        except RuntimeError as e:
+            res["fail"] = {"key": spec["key"], "what": "%s: library raised: %s" % (spec["what"], e)}
+        return res
     try:
         for step in range(spec["steps"]):
             res["stats"]["steps"] += 1
